@@ -1228,6 +1228,55 @@ def large_programs_c18(n=300):
                 out.append({"name": "nested/%s/n=%d/at=%d" % (name, nn, at),
                             "program": {"property": "C18", "run_seed": 0, "rng0": 4, "config": {"large": "nested/" + name},
                                         "mode": "explicit", "steps": steps}})
+    # class floods: more than a thousand concrete classes of one parametric family are created in the process (a long-running
+    # session), then constructions and calls made BEFORE the flood are repeated on operators built from the same recipes
+    XS = {"k": "sum", "args": [DN, DG]}
+    for fam, rec in [("product", {"k": "matmul", "a": {"k": "T", "of": XS}, "b": XS}),
+                     ("sum", {"k": "add", "a": DN, "b": DG}),
+                     ("kron", {"k": "kron_fn", "a": D2, "b": DG}),
+                     ("transpose", {"k": "T", "of": XS}),
+                     ("blockdiag", {"k": "block_diag_fn", "args": [D2, DG]})]:
+        obs = lambda slot: [call("flatten", A=S(slot)), call("isa", A=S(slot), name="PSD"), call("to_dense", A=S(slot)),  # noqa: E731
+                            call("eig", A=S(slot), k=1, which="LM"), call("diag_default", A=S(slot), k=0)]
+        steps = [mk("B1", rec)] + obs("B1") + [mk("Fl", {"k": "flood", "family": fam, "count": 1200}), mk("B2", rec)] + obs("B2")
+        steps = copy.deepcopy(steps)
+        for j, st in enumerate(steps):
+            st["id"] = j
+        out.append({"name": "flood/%s" % fam,
+                    "program": {"property": "C18", "run_seed": 0, "rng0": 4, "config": {"large": "flood/" + fam},
+                                "mode": "explicit", "steps": steps}})
+    # one caller-owned Auto object carrying options that only some of the algorithms it turns into accept, handed to every
+    # entry point, alone and in ordered pairs (small operand: direct paths; n = 1001: iterative paths)
+    ES = [("solve", {"b": arr([N], "f8", 56)}), ("inv", {}), ("eig", {"k": 1, "which": "LM"}), ("eig", {"k": 2, "which": "LM"}),
+          ("eigmax", {}), ("logdet", {}), ("unary", {"f": "sqrt"}), ("diag_auto", {"k": 0}), ("trace_auto", {}),
+          ("svd", {"k": 1, "which": "LM"}), ("pinv", {})]
+    m = 1001
+    big = _psd({"k": "no_dispatch", "of": {"k": "diag", "n": m, "dtype": "f8", "seed": 81}})
+    for akw in ({"max_iters": 5, "tol": 1e-10}, {"tol": 1e-3}, {"max_iters": 4}):
+        for oname, orec, rows in (("small", _psd(SP), N), ("large", big, m)):
+            if oname == "large" and "tol" not in akw:
+                continue
+
+            def one(e):
+                a = dict(e[1])
+                if "b" in a:
+                    a["b"] = arr([rows], "f8", 56)
+                return call(e[0], A=S("Ao"), alg={"algobj": "ga"}, **a)
+            pairs = [(e1, e2) for e1 in ES for e2 in ES] if (oname == "small" and "tol" in akw and "max_iters" in akw) \
+                else [(e, None) for e in ES]
+            if oname == "large":
+                pairs = [(e, None) for e in ES if e[0] in ("solve", "eig", "eigmax", "logdet", "trace_auto")]
+            for e1, e2 in pairs:
+                steps = [mk("Ao", orec), {"op": "mkalg", "name": "ga", "cls": "Auto", "kw": dict(akw)}, one(e1)]
+                if e2 is not None:
+                    steps += [one(e2), dict(one(e1), repeat_of=2)]
+                steps = copy.deepcopy(steps)
+                for j, st in enumerate(steps):
+                    st["id"] = j
+                nm = lambda e: e[0] + "".join("_%s" % v for v in e[1].values() if isinstance(v, (str, int)))  # noqa: E731
+                out.append({"name": "auto_object/%s/%s/%s%s" % ("+".join(sorted(akw)), oname, nm(e1), "->" + nm(e2) if e2 else ""),
+                            "program": {"property": "C18", "run_seed": 0, "rng0": 4,
+                                        "config": {"large": "auto_object/" + oname}, "mode": "explicit", "steps": steps}})
     return out
 
 
